@@ -102,7 +102,7 @@ def run(ctx):
     for idx in ctx.cases(quick=80, thorough=400):
         rng = ctx.rng(idx)
         ctx.reseed_global(idx)
-        h = model.gen_history(rng, ndocs=(30, 400) if rng.random() < 0.7 else (5, 40), boosts=rng.random() < 0.5, maxlen=8, burst=rng.choice([0.0, 0.05, 0.15]),
+        h = model.gen_history(rng, ndocs=(30, 400) if rng.random() < 0.7 else (5, 40), boosts=rng.choice([False, True, "fractional"]), maxlen=8, burst=rng.choice([0.0, 0.05, 0.15]),
                               delete_modes=("none", "few", "many", "segment"))
         h["blocklimit"] = rng.choice([2, 2, 4, 16, 128])
         staged = False
